@@ -975,18 +975,21 @@ class Engine:
                     if v is None:
                         others = set((1 - x) if flip else x for x in vals)
                         boolish = isb or (isinstance(d, tuple) and d and d[0] == "bin" and d[1] in CMP)
-                        if boolish and others == {0}:
+                        if isb and others == {0}:
                             s2.tagfacts[atom] = 1
                             s2.pc.append((d, True, "branch"))
-                        elif boolish and others == {1}:
-                            # the discriminant of a lazily conditional Option (`checked_sub`, `get`, ..) is its condition: "not Some" is "false"
-                            s2.tagfacts[atom] = 0
-                            s2.pc.append((d, False, "branch"))
+                        elif boolish and not isb and others in ({0}, {1}):
+                            # the discriminant of a lazily conditional Option (`checked_sub`, `get`, ..) is its condition: "not Some" is "false".
+                            # `others` is in the atom's value space; the condition d itself is true for atom value 1 unless the atom is flipped
+                            only = 1 - next(iter(others))
+                            s2.tagfacts[atom] = only
+                            s2.pc.append((d, bool(only) != bool(flip), "branch"))
                         elif len(others) == 1 and others <= {0, 1} and _two_variant(atom):
                             # `let Ok(x) = r else { .. }`: the otherwise-arm of a two-variant enum is its other variant
                             only = 1 - next(iter(others))
                             s2.tagfacts[atom] = only
-                            s2.pc.append((d, only, "branch"))
+                            # (a boolean view of the tag, `r.is_ok()`, is true for tag 1 unless the atom is flipped)
+                            s2.pc.append((d, (bool(only) != bool(flip)) if isb else only, "branch"))
                         else:
                             prev = s2.tagfacts.get(atom)
                             if isinstance(prev, tuple):
